@@ -4,10 +4,16 @@
 mod algos;
 mod big;
 mod c10;
+mod c11;
+mod talloc;
+
+#[global_allocator]
+static GLOBAL: talloc::TrackingAlloc = talloc::TrackingAlloc;
 mod c14;
 mod c15;
 mod c16;
 mod c17;
+mod c18;
 mod dom;
 mod mprops;
 mod refm;
@@ -245,6 +251,9 @@ fn main() {
     if args.len() < 3 {
         machinery_failure("usage: e1 <property> <quick|thorough> | e1 replay <property> <file>");
     }
+    if args[1] == "c18-adversary" {
+        c18::adversary_child(args[2].parse().unwrap_or(0));
+    }
     if args[1] == "replay" {
         if args.len() < 4 {
             machinery_failure("usage: e1 replay <property> <file>");
@@ -255,17 +264,30 @@ fn main() {
                 let id = args[2].clone();
                 replay_generic(&args[2], &args[3], &move |c, acc| replay_matcher_case(&id, c, acc))
             }
+            "C11" => replay_generic("C11", &args[3], &c11::replay_case),
             "C14" => replay_generic("C14", &args[3], &c14::replay_case),
             "C17" => replay_generic("C17", &args[3], &c17::replay_case),
+            "C18" => replay_generic("C18", &args[3], &c18::replay_case),
             other => machinery_failure(&format!("no replay for {other}")),
         }
     }
     match args[1].as_str() {
         "C01" | "C02" | "C03" | "C04" | "C05" => run_matcher_prop(&args[1], &args[2]),
         "C10" => c10::run(&args[2]),
+        "C11" => {
+            let mut rep = Report::new("C11", &args[2]);
+            dom::quiet_panics();
+            c11::run_seq(&mut rep);
+            rep.acc.traces = rep.acc.transitions;
+            rep.exhaustive = true;
+            rep.bound = "sequential: every history up to the depth bound over 12 operations from 18 start states".into();
+            rep.rule = "complete enumeration of operation histories; non-trivial = at least two operations including a lying iterator or a panicking callback".into();
+            rep.finish()
+        }
         "C14" => c14::run(&args[2]),
         "C15" => c15::run(&args[2]),
         "C17" => c17::run(&args[2]),
+        "C18" => c18::run(&args[2]),
         "C16" => {
             let p = std::env::var("VERIF_UNICODE_REF")
                 .unwrap_or_else(|_| machinery_failure("VERIF_UNICODE_REF not set (run through run.sh)"));
